@@ -269,6 +269,20 @@ def histories(seed, tier, extra_packets=()):
             out.append(scen(hp, [{"op": "read_question"}, setter, {"op": "read_question"}]))
             out.append(scen(hp, [setter, {"op": "read_question"}, {"op": "recompute"}, {"op": "read_question"}]))
             out.append(scen(hp, [{"op": "read_question"}, setter, op_insert("AR", 0), {"op": "read_question"}]))
+    # a record whose data name is compressed against its *own* owner name (NS / CNAME / PTR / MX / SOA), as the last
+    # record of the packet and followed by another one: the owner is set to names of the same, a smaller and a larger
+    # length that differ in the labels the data name borrows
+    sq = name("q", "ex") + [0, 1, 0, 1]
+    o = 12 + len(sq)
+    own = name("foo", "bar")                      # "bar" sits at o + 4
+    datas = {2: [2, 110, 115] + ptr(o + 4), 5: [1, 99] + ptr(o + 4), 12: ptr(o + 4), 15: [0, 10, 2, 109, 120] + ptr(o + 4),
+             6: ptr(o + 4) + [4, 104, 111, 115, 116] + ptr(o) + [0, 0, 0, 1] * 5}
+    for ty, d in datas.items():
+        for tail in ([], rr(ptr(12), 1, 4, [4, 4, 4, 4])):
+            pkt = hdr(16, 0x8180, 1, 2 if tail else 1, 0, 0) + sq + rr(own, ty, 77, d) + tail
+            for nm in (name("foo", "baz"), name("fox", "bar"), name("fo", "baz"), name("fooo", "baz"), name("FOO", "BAR")):
+                out.append(scen(pkt, [cursor_op("AN", False, 0, [("set_raw_name", nm), ("next", [])]), {"op": "read_question"}]))
+                out.append(scen(pkt, [{"op": "read_question"}, cursor_op("AN", False, 0, [("set_raw_name", nm), ("set_raw_name", own)])]))
     # arguments equal to the current value up to letter case: the question / an owner renamed to its own name in
     # another case, on a pointer-free object whose question cache is filled, then read back raw
     for b, qn, own in ((bases[0], name("Q", "eX"), name("q", "EX")), (bases[1], name("Q", "EX"), name("Q", "Ex"))):
